@@ -280,7 +280,7 @@ pub fn explore(ctx: &mut Ctx, label: &str) {
     // ---- structured large graphs: inheritance across more than 30 ancestors / parents
     {
         let family = super::common::large_family();
-        ctx.space(&format!("{label}/large-structured"), &format!("{} large shapes; gene 11 on the last term, gene 22 on every 7th term, OMIM on the middle term, ORPHA 77 on the top term and ORPHA 78 on the last two terms, bare records; facts in list order and reversed; Builder, binary v3, JAX", family.len()));
+        ctx.space(&format!("{label}/large-structured"), &format!("{} large shapes; gene 11 on the last term, gene 22 on every 7th term, OMIM on the middle term, ORPHA 77 on the top term and ORPHA 78 on the last two terms, gene 44 and OMIM 600004 on every term, bare records; facts in list order and reversed; Builder, binary v3, JAX", family.len()));
         for (base, what) in &family {
             if !ctx.take() {
                 continue;
@@ -301,6 +301,12 @@ pub fn explore(ctx: &mut Ctx, label: &str) {
             anns.push(Facts::ann(crate::model::Kind::Orpha, 78, "Orpha two", Some(ids[n - 1])));
             anns.push(Facts::ann(crate::model::Kind::Orpha, 78, "Orpha two", Some(ids[n - 2])));
             anns.push(Facts::ann(crate::model::Kind::Orpha, 79, "Orpha three, bare", None));
+            // records with very many direct terms (beyond 8-bit counts on shapes with > 255 terms): gene 44 and
+            // OMIM 600004 on every term, in an order that is neither ascending nor descending
+            for i in (0..n).step_by(2).chain((1..n).step_by(2).rev()) {
+                anns.push(Facts::ann(crate::model::Kind::Gene, 44, "GENE4", Some(ids[i])));
+                anns.push(Facts::ann(crate::model::Kind::Omim, 600_004, "Disease four, everywhere", Some(ids[i])));
+            }
             let f = Facts { anns, ..base.clone() };
             let r = RefOnt::derive(&f);
             for reversed in [false, true] {
@@ -474,6 +480,68 @@ pub fn explore(ctx: &mut Ctx, label: &str) {
                         }
                     }
                 }
+            }
+        }
+    }
+    // ---- the library's own writer as a construction path: Builder -> as_bytes -> from_bytes, with records of
+    // one kind that share their name (names are not keys) and records without terms
+    {
+        let n = 3;
+        let dags = all_dags(n);
+        ctx.space(&format!("{label}/as_bytes-round-trip/same-named-records"), &format!("{} labelled DAGs over {:?} x 2^{n} subsets S: genes 11<-S and 12<-complement(S) both named SAME, OMIM 1<-S, 2<-rot1(S) both named 'Same disease', ORPHA 1<-rot2(S), 2<-S with that name too, bare gene 13 named SAME; Builder, then as_bytes -> from_bytes, then once more", dags.len(), &POOL_ROOTS[..n]));
+        for d in &dags {
+            for s in 0..(1u32 << n) {
+                if !ctx.take() {
+                    continue;
+                }
+                ctx.state();
+                if inherits(d, s) {
+                    ctx.nontrivial();
+                }
+                let mut f = Facts::from_dag(d, &POOL_ROOTS);
+                f.version = (2024, 2, 29);
+                let ids: Vec<u32> = f.terms.iter().map(|t| t.id).collect();
+                let full = (1u32 << n) - 1;
+                let on = |mask: u32| -> Vec<u32> { crate::space::bits(mask & full, n).iter().map(|i| ids[*i]).collect() };
+                use crate::model::Kind;
+                for t in on(s) {
+                    f.anns.push(Facts::ann(Kind::Gene, 11, "SAME", Some(t)));
+                    f.anns.push(Facts::ann(Kind::Omim, 1, "Same disease", Some(t)));
+                    f.anns.push(Facts::ann(Kind::Orpha, 2, "Same disease", Some(t)));
+                }
+                for t in on(!s) {
+                    f.anns.push(Facts::ann(Kind::Gene, 12, "SAME", Some(t)));
+                }
+                for t in on(super::common::rot(s, 1, n)) {
+                    f.anns.push(Facts::ann(Kind::Omim, 2, "Same disease", Some(t)));
+                }
+                for t in on(super::common::rot(s, 2, n)) {
+                    f.anns.push(Facts::ann(Kind::Orpha, 1, "Same disease", Some(t)));
+                }
+                f.anns.push(Facts::ann(Kind::Gene, 13, "SAME", None));
+                let r = RefOnt::derive(&f);
+                ctx.transitions(3 * f.n_steps());
+                let Ok(first) = crate::drive::build(&f, Mode::Defaults) else {
+                    ctx.exec();
+                    ctx.violation("Builder", "[builder] construction fails on valid facts", json!({"case": f.to_json()}));
+                    continue;
+                };
+                let case = || json!({"facts": f.to_json(), "path": "Builder -> as_bytes -> from_bytes"});
+                let mut cur = first;
+                for round in 1..=2 {
+                    match crate::ctx::guard(|| cur.as_bytes()).ok().map(|b| crate::drive::from_bytes(&b)) {
+                        Some(Ok(Ok(next))) => {
+                            crate::drive::check_against_model(ctx, &next, &r, Mode::Defaults, if round == 1 { "as_bytes round trip" } else { "second as_bytes round trip" }, &case);
+                            cur = next;
+                        }
+                        other => {
+                            ctx.exec();
+                            ctx.violation("Ontology::as_bytes -> from_bytes", "[as_bytes round trip] the library cannot read what it wrote", json!({"case": case(), "observed": format!("{:?}", other.map(|r| r.map(|x| x.map(|_| ()))))}));
+                            break;
+                        }
+                    }
+                }
+                ctx.sample(|| json!({"dag": d.describe(), "ids": ids, "S": crate::space::bits(s, n)}));
             }
         }
     }
